@@ -99,6 +99,37 @@ def gen_scripted(rnd, tier):
     return cases
 
 
+def later_packet_fails_case(packet, size, fail_at):
+    """send_message through the real send queue, the connection's send_data failing at its fail_at-th call (the frame is cut into
+    packets of `packet` bytes): the call must report failure - success is only for a frame that was written completely"""
+    import protorig
+    from secsgem.hsms.header import HsmsHeader, HsmsSType
+    from secsgem.hsms.message import HsmsMessage
+    rig = protorig.HsmsRig(active=False, inert=True)
+    try:
+        if not rig.connect():
+            raise RuntimeError("rig did not settle after connect")
+        rig.proto.send_packet_size = packet
+        calls = []
+
+        def scripted(data):
+            calls.append(len(data))
+            if len(calls) > 1:
+                time.sleep(0.03)      # writing takes time: a sender that was told a result too early has gone on by now
+            return len(calls) != fail_at
+
+        rig.conn.send_data = scripted
+        msg = HsmsMessage(HsmsHeader(91, 0, 1, 1, False, 0, HsmsSType.DATA_MESSAGE), bytes(size))
+        frame_len = len(msg.blocks[0].encode())
+        result = common.with_deadline(lambda: rig.proto.send_message(msg), 20.0)
+        rig.settle()
+    finally:
+        rig.stop()
+    packets = -(-frame_len // packet)
+    return {"packet_size": packet, "frame_length": frame_len, "packets": packets, "send_data_fails_at_call": fail_at, "send_data_calls": len(calls), "reported": bool(result),
+            "written_completely": fail_at > packets}
+
+
 HOLD_BACK = 6000
 
 
@@ -291,6 +322,16 @@ def run(tier, replay=None):
         if obs["reported"] and not obs["identical"]:
             report.violation({"kind": "counterexample", "what": "send_data() reported success, the endpoint was closed, and the peer reading until EOF did not receive the bytes complete", **obs}, True, tag="tcp")
             break
+    # a later packet of a frame is not written: the call reports failure
+    later = []
+    for packet, size, fail_at in ([(8, 20, 2), (8, 20, 5), (16, 100, 3), (8, 20, 6)] if tier == "quick" else [(p, sz, f) for p in (4, 8, 16) for sz in (0, 20, 100) for f in (1, 2, 3, 5, 9, 40)]):
+        obs = common.guarded(lambda a=(packet, size, fail_at): later_packet_fails_case(*a), f"send_message: packet size {packet}, body {size}, send_data fails at call {fail_at}", twedged, 60.0)
+        if obs is None:
+            continue
+        later.append(obs)
+        if obs["reported"] != obs["written_completely"]:
+            report.violation({"kind": "counterexample", "what": "send_message() reported success although a packet of the frame was not written (or failure although all were)", **obs}, True, tag="laterpacket")
+            break
     # whole messages through the protocol's send queue, around the packet size
     for size in ([1024 * 1024 + 1] if tier == "quick" else [1024 * 1024 - 14, 1024 * 1024 - 13, 1024 * 1024 + 1, 2 * 1024 * 1024 + 5, 3 * 1024 * 1024 - 14]):
         k += 1
@@ -318,6 +359,7 @@ def run(tier, replay=None):
                    "handed over and the reported result are compared with the model and the statement; and real transfers from a TcpServerConnection to a loopback socket with 4 KiB socket "
                    "buffers: 1 byte to 4 MiB, receiver reading at once, after a delay, or in 512-byte reads; received bytes compared with what was sent")
     cov["correspondence"] = {k2: v for k2, v in stats.items() if k2 != "eval_errors"}
+    cov["later_packet_fails"] = later
     cov["loopback"] = [{k2: o.get(k2) for k2 in ("size", "pacing", "closed_right_after_send", "reported", "identical", "received", "send_seconds")} for o in rounds]
     cov["distribution"] = {"data_sizes": dict(Counter(len(c[1]) for c in cases)), "script_lengths": dict(Counter(len(c[0]) for c in cases))}
     cov["samples"] = [f"{c[0]} / {len(c[1])} bytes" for c in cases[:: max(1, len(cases) // 5)][:5]]
